@@ -16,7 +16,7 @@ import (
 )
 
 var c11Kinds = []string{"deal-with-unknown-dealer-index", "deal-from-second-polynomial", "deal-encrypted-to-wrong-key", "ciphertext-truncated", "ciphertext-garbled",
-	"commitments-one-coefficient-altered", "commitments-too-short", "commitments-too-long", "response-with-complaint", "deal-not-a-deal"}
+	"commitments-one-coefficient-altered", "commitments-too-short", "commitments-too-long", "response-with-complaint", "deal-not-a-deal", "deal-with-another-participants-dealer-index"}
 
 type rngReader struct{ r interface{ Next() uint64 } }
 
@@ -45,6 +45,8 @@ func runC11(w *World, tier string) (bool, interface{}) {
 	// the board is unreachable for single submissions now and then (also for the
 	// one that carries the victim's refusal); operators submit again
 	c.L.Faults.BoardDownAtSubmit = w.Tape.Bool(1, 2, "boardOutages")
+	// ... or goes away in the middle of one (part of a participant's deals posted)
+	c.L.Faults.PartialPost = w.Tape.Bool(1, 3, "partialPosts")
 	if w.Tape.Bool(1, 2, "operatorsRetryRefusals") {
 		for _, op := range c.Ops {
 			op.RetryRefused = true
@@ -119,6 +121,32 @@ func runC11(w *World, tier string) (bool, interface{}) {
 				case "ciphertext-garbled":
 					k := w.Tape.Choose(len(req.Deal), "garbleAt")
 					req.Deal[k] ^= 0x5a
+				case "deal-with-another-participants-dealer-index":
+					// the genuine sealed deal with its dealer index replaced by the addressee's
+					// own or a third participant's, sealed again for the addressee
+					pt, err := w.Airs[V].M.SimDecrypt(req.Deal)
+					if err != nil {
+						return result
+					}
+					var dm map[string]interface{}
+					if json.Unmarshal(pt, &dm) != nil {
+						return result
+					}
+					idx := V
+					if n > 2 && w.Tape.Bool(1, 3, "thirdPartyIndex") {
+						for z := 0; z < n; z++ {
+							if z != V && z != D {
+								idx = z
+							}
+						}
+					}
+					dm["Index"] = idx
+					bz, _ := json.Marshal(dm)
+					enc, err := ecies.Encrypt(suite, w.Airs[V].M.GetPubKey(), bz, suite.Hash)
+					if err != nil {
+						return result
+					}
+					req.Deal = enc
 				case "deal-with-unknown-dealer-index":
 					// the genuine sealed deal, opened with the addressee's key (hook H2), its dealer index
 					// replaced by one that is no participant, sealed again for the addressee
